@@ -72,17 +72,21 @@ def main():
         export(patched)
         sh(["git", "apply", "--whitespace=nowarn", str(out_dir / "patch.diff")], cwd=patched)
         meta["checks"] = {}
+        # the checks run from a private copy of /verif (build output included): trials running in parallel neither
+        # overwrite each other's replays/ nor regenerate lean/Paroxy/Gen under each other's feet
+        vcopy = tmp / "verif"
+        sh(["rsync", "-a", "--exclude", ".git", "--exclude", "seeded", "--exclude", "replays", "--exclude", "evidence", f"{VERIF}/", f"{vcopy}/"])
         for p in [pid] + others:
             runs = []
             for seed in (0, 1):
                 env = dict(os.environ, PAROXY_REPO=str(patched), VERIF_SEED=str(seed), VERIF_EVIDENCE_DIR=str(tmp / "evidence"))
-                c, o = sh(["./check", p, "--tier", "quick"], cwd=VERIF, env=env)
+                c, o = sh(["./check", p, "--tier", "quick"], cwd=vcopy, env=env)
                 line = [l for l in o.splitlines() if l.startswith(("VIOLATION", "OK ", "KNOWN-FINDING", "MACHINERY"))]
                 replay = None
                 m = re.search(r"replay=(\S+)", o)
-                if m and (VERIF / m.group(1)).exists():
+                if m and (vcopy / m.group(1)).exists():
                     keep = out_dir / f"replay-{p}-seed{seed}.json"
-                    shutil.copy(VERIF / m.group(1), keep)
+                    shutil.copy(vcopy / m.group(1), keep)
                     replay = str(keep.relative_to(VERIF))
                 runs.append({"seed": seed, "exit": c, "lines": line[-3:], "replay": replay})
             meta["checks"][p] = runs
